@@ -26,12 +26,36 @@ STRUCTS = [
 ]
 
 
+def late_terms(cell):
+    """17000 atoms: 16994 unbonded filler atoms, then a 6-atom chain with every term kind"""
+    a = mk(6, True, cell=cell); nf = 16994
+    g = np.array([(0.2 + 0.35 * (i % 26), 3.0 + 0.35 * ((i // 26) % 26), 0.3 + 0.35 * (i // 676)) for i in range(nf)]) @ (np.asarray(cell) / np.abs(np.asarray(cell)).max())
+    kw = dict(atom_types=[4] * nf + [int(t) for t in a.atom_types], atom_type_elements=list(a.atom_type_elements) + ['He'], atom_type_labels=list(a.atom_type_labels) + ['He_f'], atom_type_masses=list(a.atom_type_masses) + [4.0026],
+              pair_coeffs=list(a.pair_coeffs) + ['pc_He 0.0'], positions=np.vstack([g, np.asarray(a.positions)]), charges=[0.0] * nf + list(a.charges), groups=[3] * nf + list(a.groups), cell=np.array(cell, float))
+    for k in KINDS:
+        kw[ATTR[k]] = [tuple(int(x) + nf for x in row) for row in np.asarray(getattr(a, ATTR[k])).reshape(-1, ARITY[k])]
+        kw[k + '_types'] = [int(x) for x in getattr(a, k + '_types')]; kw[k + '_type_coeffs'] = list(getattr(a, k + '_type_coeffs'))
+    return Atoms(**kw)
+
+
+STRUCTS.append(('17000 atoms: unbonded filler, then a 6-atom chain with every term kind', late_terms))
+
+
 def plan(tier, seed):
     Rmax = 3 if tier == 'quick' else 4
     cells = list(range(5)) if tier == 'quick' else list(range(6))
-    scs = [dict(cell=ci, s=si, dims=list(d)) for ci in cells for si in range(len(STRUCTS)) for d in itertools.product(range(1, Rmax + 1), repeat=3)]
+    scs = [dict(cell=ci, s=si, dims=list(d)) for ci in cells for si in range(len(STRUCTS) - 1) for d in itertools.product(range(1, Rmax + 1), repeat=3)]
+    # beyond the small bound: large replication factors (49 = 7*7 is the first r with 1/(1/r) != r in doubles; 98, 103, 107 likewise) ...
+    for ci in (0, 2):
+        for si in (5, 1):
+            for d in ([48, 1, 1], [49, 1, 1], [1, 2, 49], [1, 98, 1], [2, 1, 103], [107, 1, 1], [1, 1, 64], [7, 7, 1]):
+                if si == 1 and max(d) > 50:
+                    continue
+                scs.append(dict(cell=ci, s=si, dims=d))
+    # ... and more than 2^15 atoms in the result, with terms on the last atoms of the last image
+    scs += [dict(cell=ci, s=len(STRUCTS) - 1, dims=d) for ci in (0, 2) for d in ([2, 1, 1], [1, 1, 2])]
     return dict(scenarios=scs, exhaustive=True, chunk=20,
-                menus=dict(cells=[CELLS[i][0] for i in cells], structures=[s[0] for s in STRUCTS], dims='{1..%d}^3' % Rmax),
+                menus=dict(cells=[CELLS[i][0] for i in cells], structures=[s[0] for s in STRUCTS], dims='{1..%d}^3; large factors (48,1,1) (49,1,1) (1,2,49) (1,98,1) (2,1,103) (107,1,1) (1,1,64) (7,7,1)' % Rmax),
                 bounds=dict(max_factor=Rmax), rule='one scenario per (cell, structure, replication triple); non-trivial = more than one image and the structure has terms',
                 assumptions=['reference model mc/ref/structure.py'])
 
@@ -65,8 +89,13 @@ def run(sc, ctx):
     else:
         # match every reference replica to exactly one real atom (order of images is not specified)
         rpos = np.array([x[-1] for x in ra]).reshape(-1, 3); used = {}; perm = {}
+        tol = 1e-9 * max(1.0, np.abs(exp_cell).max() / 10.0)
+        near = None
+        if len(fa) > 2000:
+            from scipy.spatial import cKDTree
+            near = cKDTree(rpos).query_ball_point(np.array([y[-1] for y in fa]).reshape(-1, 3), r=2 * tol, p=np.inf)
         for j, y in enumerate(fa):
-            cand = [i for i in np.where(np.abs(rpos - np.array(y[-1])).max(axis=1) <= 1e-9)[0] if ra[i][:-1] == y[:-1] and i not in used]
+            cand = [i for i in (np.where(np.abs(rpos - np.array(y[-1])).max(axis=1) <= tol)[0] if near is None else near[j]) if ra[i][:-1] == y[:-1] and i not in used]
             if len(cand) != 1:
                 bad.append(('atoms', 'replica of %r at %r appears %d times (expected exactly once)' % (y[:3], y[-1], len(cand)))); break
             used[cand[0]] = j; perm[cand[0]] = j
